@@ -490,6 +490,18 @@ pub fn run() -> i32 {
                 eprintln!("SELFTEST-FAIL: c20_extractor_combos: case {}", case);
             }
         }
+        for outer in 0..2u8 {
+            for inner in 0..2u8 {
+                for var in 0..3u8 {
+                    crate::sym::load(vec![vec![outer], vec![inner], vec![var]]);
+                    n += 1;
+                    if std::panic::catch_unwind(|| crate::node::c04_nested_prefix()).is_err() {
+                        c11_bad += 1;
+                        eprintln!("SELFTEST-FAIL: c04_nested_prefix: outer={} inner={} var={}", outer, inner, var);
+                    }
+                }
+            }
+        }
         for code in 0..=5u8 {
             crate::sym::load(vec![vec![code]]);
             n += 1;
